@@ -42,6 +42,8 @@ type facts struct {
 	ProbeBoundToCtx     bool
 	GracefulSequence    []string
 	GracefulStopAlways  bool     // shutdownGracefully: lb.Stop() is a top-level statement and no return precedes it
+	SignalsStayRegistered bool   // cmd/helios: signal.Notify for SIGINT/SIGTERM and nothing ever un-registers (Stop / Reset / Ignore)
+	ExecuteRecoverArm   bool     // Execute: `if r := recover(); r != nil { cb.afterRequest(generation, false); panic(r) }` and nothing else in the deferred function
 	ProxyFlushImmediate bool     // AddBackend sets proxy.FlushInterval = -1
 	TransportNoCompress bool     // the backend transport has DisableCompression: true
 	LbWriterMethods     []string // methods responseWriter defines itself (everything else is the embedded writer's)
@@ -501,6 +503,78 @@ func main() {
 		})
 	}
 
+	// C19: the stop signals stay registered for the life of the process (a repeated signal is absorbed)
+	{
+		notify, unreg := false, false
+		for _, file := range mainPkg {
+			ast.Inspect(file, func(n ast.Node) bool {
+				if ce, ok := n.(*ast.CallExpr); ok {
+					switch selText(ce.Fun) {
+					case "signal.Notify":
+						notify = true
+					case "signal.Stop", "signal.Reset", "signal.Ignore":
+						unreg = true
+					}
+				}
+				return true
+			})
+		}
+		f.SignalsStayRegistered = notify && !unreg
+	}
+	// C07 / C13 / C01: a panic inside the protected call is a failure of that call, recorded, and goes on as a panic
+	if fd := findFunc(parseDir(filepath.Join(repo, "internal/circuitbreaker")), "CircuitBreaker", "Execute"); fd != nil {
+		ok := false
+		ndefer := 0
+		for _, st := range fd.Body.List {
+			ds, isDefer := st.(*ast.DeferStmt)
+			if !isDefer {
+				continue
+			}
+			ndefer++
+			fl, isLit := ds.Call.Fun.(*ast.FuncLit)
+			if !isLit || len(fl.Body.List) != 1 {
+				continue
+			}
+			ifs, isIf := fl.Body.List[0].(*ast.IfStmt)
+			if !isIf || ifs.Else != nil || ifs.Init == nil || len(ifs.Body.List) != 2 {
+				continue
+			}
+			// r := recover(); r != nil
+			as, isAs := ifs.Init.(*ast.AssignStmt)
+			if !isAs || len(as.Rhs) != 1 || selText(as.Rhs[0].(*ast.CallExpr).Fun) != "recover" {
+				continue
+			}
+			be, isBin := ifs.Cond.(*ast.BinaryExpr)
+			if !isBin || be.Op != token.NEQ {
+				continue
+			}
+			if id, isId := be.Y.(*ast.Ident); !isId || id.Name != "nil" {
+				continue
+			}
+			es, isEs := ifs.Body.List[0].(*ast.ExprStmt)
+			if !isEs {
+				continue
+			}
+			c1, isCall := es.X.(*ast.CallExpr)
+			if !isCall || !strings.HasSuffix(selText(c1.Fun), ".afterRequest") || len(c1.Args) != 2 {
+				continue
+			}
+			if id, isId := c1.Args[1].(*ast.Ident); !isId || id.Name != "false" {
+				continue
+			}
+			es2, isEs2 := ifs.Body.List[1].(*ast.ExprStmt)
+			if !isEs2 {
+				continue
+			}
+			c2, isCall2 := es2.X.(*ast.CallExpr)
+			if !isCall2 || selText(c2.Fun) != "panic" || len(c2.Args) != 1 {
+				continue
+			}
+			ok = true
+		}
+		f.ExecuteRecoverArm = ok && ndefer == 1
+	}
+
 	// C01: ReverseProxy / transport settings and the balancer's own writer
 	if ab := findFunc(lb, "LoadBalancer", "AddBackend"); ab != nil {
 		ast.Inspect(ab, func(n ast.Node) bool {
@@ -769,6 +843,8 @@ func main() {
 	fmt.Fprintf(&sb, "def probeBoundToCtx : Bool := %s\n", b(f.ProbeBoundToCtx))
 	fmt.Fprintf(&sb, "def gracefulSequence : List String := %s\n", q(f.GracefulSequence))
 	fmt.Fprintf(&sb, "def gracefulStopAlways : Bool := %s\n", b(f.GracefulStopAlways))
+	fmt.Fprintf(&sb, "def signalsStayRegistered : Bool := %s\n", b(f.SignalsStayRegistered))
+	fmt.Fprintf(&sb, "def executeRecoverArm : Bool := %s\n", b(f.ExecuteRecoverArm))
 	fmt.Fprintf(&sb, "def proxyFlushImmediate : Bool := %s\n", b(f.ProxyFlushImmediate))
 	fmt.Fprintf(&sb, "def transportNoCompress : Bool := %s\n", b(f.TransportNoCompress))
 	fmt.Fprintf(&sb, "def lbWriterMethods : List String := %s\n", q(f.LbWriterMethods))
